@@ -39,6 +39,7 @@ type c10Origin struct {
 type c10World struct {
 	ccache    SessionCache
 	cliSuites []uint16
+	polSet    int // which of the two sets of client-authentication policies the three servers use
 	cliName   string // the client's ServerName: the certificates' name, or an IP literal they do not cover
 	srv       [3]*c10Server
 	seen      map[string]bool       // every session id a ServerHello has carried as a new session
@@ -88,7 +89,7 @@ func (c *vfPtrCache) Put(k string, s *SessionState) {
 
 var c10Names = []string{vfServerName, "10.9.9.9", "[::1]"}
 
-var c10SuiteSets = [][]uint16{{ECC_SM4_GCM_SM3}, {ECC_SM4_CBC_SM3}, {ECC_SM4_GCM_SM3, ECC_SM4_CBC_SM3}, {ECDHE_SM4_GCM_SM3, ECC_SM4_CBC_SM3}}
+var c10SuiteSets = [][]uint16{{ECC_SM4_GCM_SM3}, {ECC_SM4_CBC_SM3}, {ECC_SM4_GCM_SM3, ECC_SM4_CBC_SM3}, {ECDHE_SM4_GCM_SM3, ECC_SM4_CBC_SM3}, {ECDHE_SM4_GCM_SM3}, {ECDHE_SM4_CBC_SM3, ECDHE_SM4_GCM_SM3}}
 
 func c10New() *c10World {
 	w := &c10World{ccache: NewLRUSessionCache(6), cliSuites: c10SuiteSets[2], cliName: vfServerName, seen: map[string]bool{}, failed: map[string]bool{}, origin: map[string]*c10Origin{}}
@@ -106,7 +107,8 @@ func (w *c10World) configs(i int) (*Config, *Config) {
 		Certificates: []Certificate{p.CliSig, p.CliEnc}}
 	scfg := &Config{Time: vfTime, Certificates: []Certificate{p.SrvSig, p.SrvEnc}, CipherSuites: w.srv[i].suites, SessionCache: w.srv[i].cache, ClientCAs: p.A.pool}
 	// the three servers ask for the client's certificate under different policies (the client always has one)
-	scfg.ClientAuth = []ClientAuthType{RequestClientCert, RequireAnyClientCert, RequireAndVerifyClientCert}[i%3]
+	scfg.ClientAuth = [][]ClientAuthType{{RequestClientCert, RequireAnyClientCert, RequireAndVerifyClientCert},
+		{NoClientCert, VerifyClientCertIfGiven, RequireAndVerifyAnyKeyUsageClientCert}}[w.polSet%2][i%3]
 	return ccfg, scfg
 }
 
@@ -382,6 +384,16 @@ func c10Exec(actions []c10Action) (sig, msg string, attemptAfter bool, log []str
 	for step, a := range actions {
 		i := a.Server % 3
 		switch a.Kind {
+		case "policies":
+			// only as the first action: the servers' policies are fixed for the whole history
+			if step == 0 {
+				w.polSet = a.Set % 2
+				// and the suite sets everybody starts with
+				w.cliSuites = c10SuiteSets[a.N%len(c10SuiteSets)]
+				for k := range w.srv {
+					w.srv[k].suites = c10SuiteSets[a.N%len(c10SuiteSets)]
+				}
+			}
 		case "connect":
 			if perturbed && c10Peek(w.ccache, w.srv[i].addr) != nil {
 				attemptAfter = true
@@ -435,7 +447,7 @@ func c10Exec(actions []c10Action) (sig, msg string, attemptAfter bool, log []str
 }
 
 func TestVF_C10(t *testing.T) {
-	rec := vfRec("C10", "C10-resumption", "rapid-generated histories over the actions connect(i), connect through a corrupting man-in-the-middle (flip in a chosen record of either direction), server cache loss, server / client suite reconfiguration, connection with a forged or stale identifier (scripted client), client cache pressure; three servers with their own addresses, caches and suite sets; after every step the model (what the real caches hold, read without touching recency) predicts resumed / full / failed and what the hellos carry; non-trivial = history with a resumption attempt after at least one perturbation; distinct = hash of the action list")
+	rec := vfRec("C10", "C10-resumption", "rapid-generated histories over the actions connect(i), connect through a corrupting man-in-the-middle (flip in a chosen record of either direction), server cache loss, server / client suite reconfiguration, connection with a forged or stale identifier (scripted client), client cache pressure; three servers with their own addresses, caches, suite sets and client-authentication policies (RequestClientCert / RequireAnyClientCert / RequireAndVerifyClientCert, or NoClientCert / VerifyClientCertIfGiven / RequireAndVerifyAnyKeyUsageClientCert for the whole history); after every step the model (what the real caches hold, read without touching recency) predicts resumed / full / failed and what the hellos carry; non-trivial = history with a resumption attempt after at least one perturbation; distinct = hash of the action list")
 	actGen := rapid.Custom(func(t *rapid.T) c10Action {
 		a := c10Action{Kind: rapid.SampledFrom([]string{"connect", "connect", "connect", "connect", "fault", "loss", "srv-suites", "cli-suites", "cli-name", "forged", "pressure"}).Draw(t, "action"),
 			Server: rapid.IntRange(0, 2).Draw(t, "server")}
@@ -455,6 +467,9 @@ func TestVF_C10(t *testing.T) {
 	})
 	vfRapid(t, rec, "histories", vfN(240, 6000), func(t *rapid.T) {
 		actions := rapid.SliceOfN(actGen, 2, 14).Draw(t, "actions")
+		if rapid.Bool().Draw(t, "otherPolicies") {
+			actions = append([]c10Action{{Kind: "policies", Set: rapid.IntRange(0, 1).Draw(t, "polset"), N: rapid.SampledFrom([]int{2, 3, 4, 4, 5}).Draw(t, "suiteset")}}, actions...)
+		}
 		sig, msg, attemptAfter, log := c10Exec(actions)
 		if sig != "" {
 			rec.Fail(t, sig, actions, "%s | log: %s", msg, strings.Join(log, " ; "))
